@@ -331,7 +331,9 @@ def run(args):
         dist["stream"][stream] = dist["stream"].get(stream, 0) + 1
         dist["pair"][comp] = dist["pair"].get(comp, 0) + 1
         case = {"text": t, "ast": json.dumps(parts), "pair": [comp, prop]}
-        if any(k in r for r in (rp, rt, rv, rf, rc) for k in ("panic", "exit", "timeout")):
+        if any("timeout" in r for r in (rp, rt, rv, rf, rc)):
+            continue                     # no answer within the pool's limit (load): termination is C10's business
+        if any(k in r for r in (rp, rt, rv, rf, rc) for k in ("panic", "exit")):
             dist["outcome"]["crash"] = dist["outcome"].get("crash", 0) + 1
             V.violation("private-property:crash", case, what="a statement with private properties crashes a conversion")
             continue
